@@ -28,6 +28,7 @@ def run(ctx):
     ctx.call(simple_rules.lookup_by_position, prog, "R3")
     ctx.call(xml_rules.no_positional_navigation, prog, "R4")
     ctx.call(xml_rules.no_local_name_identity, prog, "R5")
+    ctx.call(xml_rules.writer_validators_not_in_reader, prog, "R3")
     ctx.call(xml_rules.prototype_order, prog, "R3")
     ctx.call(xml_rules.inverse_maps, prog, "R3", "R3", "R3", only=("PointCloud",))
     ctx.cfg = None
